@@ -913,6 +913,9 @@ func (tr *Tr) instr(fr *Frame, in ssa.Instruction) {
 		fr.env[x] = tr.typeAssert(fr, x)
 	case *ssa.Range:
 		fr.env[x] = Val{f.Fresh("range", S64)}
+		if isMap(x.X.Type()) {
+			tr.effect(fr, x, "maporder")
+		}
 	case *ssa.Next:
 		fr.env[x] = tr.next(fr, x)
 	case *ssa.Select:
